@@ -111,6 +111,36 @@ def r1_one_rng(ctx):
         ctx.check(any(s.name == RNG_FN for s in g.calls()), 'funnel:%s' % nm, '%s draws from runtime::rng()' % short(nm), g.where())
 
 
+def r2b_callbacks_in_seeded_context(ctx):
+    """select! branch choices made while a handler runs are seeded too: tokio installs a runtime's seeded RNG only inside block_on, so the
+    module callback must run inside the future that Harness::exec drives (shared with C06.R1)"""
+    ctx.set_rule('C04.R2')
+    P = ctx.P
+    H_ = 'des::net::runtime::unwind::Harness'
+    fe = ctx.anchor(H_ + '::exec')
+    if not fe:
+        return
+    scope = [fe] + P.closures_of(fe)
+    bo = [(g, s) for g in scope for s in g.calls() if s.name == 'tokio::task::LocalSet::block_on']
+    cb = [(g, s) for g in scope for s in g.calls() if s.callee and s.callee.endswith('FnOnce::call_once')]
+    if not (ctx.floor('LocalSet::block_on in Harness::exec', len(bo), 1) and ctx.floor('callback invocation in Harness::exec', len(cb), 1)):
+        return
+    in_future = False
+    for g_bo, s_bo in bo:
+        for a_ in s_bo.args:
+            t_ = peel(g_bo.expr_operand(a_, s_bo.b, 'T'))
+            if t_[0] == 'agg' and str(t_[1]).startswith('closure:'):
+                k_ = str(t_[1])[len('closure:'):]
+                if any(g_cb.key == k_ or g_cb.key.startswith(k_ + '::') for g_cb, _ in cb):
+                    in_future = True
+    if not in_future and cb and bo:
+        # the future built beforehand (`let turn = async move { f(); .. }`) and handed over by name: the callback is then called in a
+        # coroutine body of its own - neither in exec itself nor in the body that calls block_on
+        bodies_bo = {g_.key for g_, _ in bo}
+        in_future = all(g_cb.kind == 'closure' and g_cb.key not in bodies_bo and g_cb.key != fe.key for g_cb, _ in cb)
+    ctx.check(in_future, 'callback-in-seeded-context', 'the module callback runs inside the future driven by block_on (where the seeded runtime context is installed)', fe.where())
+
+
 def r2_seeded_executors(ctx):
     ctx.set_rule('C04.R2')
     P = ctx.P
@@ -506,5 +536,6 @@ def run(ctx):
     r5_identity_counters(ctx)
     r1_one_rng(ctx)
     r2_seeded_executors(ctx)
+    r2b_callbacks_in_seeded_context(ctx)
     r3_forbidden_sources(ctx)
     r4_static_inventory(ctx)
